@@ -372,10 +372,10 @@ pub open spec fn seq_matches(refs: Seq<&Selection>, sels: Seq<Selection>) -> boo
 //@   loop 0 body_prefix broadcast use crate::axiom_str_eq; proof { crate::axiom_str_obeys(); }
 //@   hint before 0 "if let Some(selection_set) = field.selection_set.as_ref() {" :: [C12.fragnames.rec.h_field_snap] let ghost nb = names@;
 //@   hint after 0 "rec(selection_set, get_fragment, names); }" :: [C12.fragnames.rec.h_field] proof { if field.selection_set is Some { crate::lemma_step_nested(get_fragment, root, names0, nb, names@, it.index@ as int, field.selection_set->Some_0); } else { crate::lemma_step_skip(get_fragment, root, names0, nb, it.index@ as int); } }
-//@   hint before 0 "continue;" :: [C12.fragnames.rec.h_dup] proof { crate::lemma_step_dup(get_fragment, root, names0, names@, it.index@ as int, fragment_spread.fragment_name.name@); }
+//@   hint after 0 "if names.contains(&fragment_spread.fragment_name.name) {" :: [C12.fragnames.rec.h_dup] proof { crate::lemma_step_dup(get_fragment, root, names0, names@, it.index@ as int, fragment_spread.fragment_name.name@); }
 //@   hint before 0 "names.push(fragment_spread.fragment_name.name);" :: [C12.fragnames.rec.h_push_snap] let ghost nb = names@; proof { let x = fragment_spread.fragment_name.name; assert(!crate::listed(nb, x@)) by { if crate::listed(nb, x@) { let j = choose|j: int| 0 <= j < nb.len() && (#[trigger] nb[j])@ == x@; assert(vstd::std_specs::cmp::PartialEqSpec::eq_spec(&nb[j], &x)); } } }
 //@   hint after 0 "names.push(fragment_spread.fragment_name.name);" :: [C12.fragnames.rec.h_push] proof { crate::lemma_nodup_push(nb, fragment_spread.fragment_name.name); }
-//@   hint before 1 "continue;" :: [C12.fragnames.rec.h_undefined] proof { crate::lemma_step_new(get_fragment, root, names0, nb, names@, it.index@ as int, fragment_spread.fragment_name.name, None); }
+//@   hint after 0 "let Some(fragment) = get_fragment(fragment_spread.fragment_name.name) else {" :: [C12.fragnames.rec.h_undefined] proof { crate::lemma_step_new(get_fragment, root, names0, nb, names@, it.index@ as int, fragment_spread.fragment_name.name, None); }
 //@   hint before 0 "rec(&fragment.selection_set, get_fragment, names);" :: [C12.fragnames.rec.h_defined_measure] proof { assert(crate::frag_rel(get_fragment, fragment_spread.fragment_name.name@, Some(fragment))); crate::lemma_measure_strict(get_fragment, nb, fragment_spread.fragment_name.name); }
 //@   hint after 0 "rec(&fragment.selection_set, get_fragment, names);" :: [C12.fragnames.rec.h_defined] proof { crate::lemma_step_new(get_fragment, root, names0, nb, names@, it.index@ as int, fragment_spread.fragment_name.name, Some(fragment)); }
 //@   hint before 0 "rec(&inline_fragment.selection_set, get_fragment, names);" :: [C12.fragnames.rec.h_inline_snap] let ghost nb = names@;
